@@ -272,7 +272,7 @@ class Paraxial:
         y, u = self._trace_generic(y0, u0, z0, wavelength, reverse=True,
                                    skip=stop_index+1)
 
-        max_field = self.optic.fields.max_y_field
+        max_field = self.optic.fields.max_field
 
         if self.optic.field_type == 'object_height':
             # the object surface does not propagate rays: y[-1] is the height
